@@ -45,6 +45,32 @@ REPRO_F17 = {
     ]}
 
 
+# regression history for the genesis round trip: three liquidations, the OLDEST token fully redeemed
+# (its record is deleted: an id gap below live tokens), a restart of the module from its exported
+# genesis, then redeems of the newer tokens
+REG_RESTART = {
+    "cfg": {"seed": 23, "minLiq": "1", "accts": {
+        "a1": {"kind": "vesting", "start": 0, "lockup": [{"len": 4, "amt": {"aISLM": "6"}}, {"len": 4, "amt": {"aISLM": "6"}}]},
+        "a2": {"kind": "plain", "extra": "3"},
+        "a3": {"kind": "none"}}},
+    "steps": [
+        {"ev": "liquidate", "args": {"from": "a1", "to": "a1", "amt": "2", "t": 1}},
+        {"ev": "liquidate", "args": {"from": "a1", "to": "a2", "amt": "3", "t": 2}},
+        {"ev": "liquidate", "args": {"from": "a1", "to": "a1", "amt": "4", "t": 2}},
+        {"ev": "redeem", "args": {"from": "a1", "to": "a3", "denom": "aLIQUID0", "amt": "2", "t": 3}},
+        {"ev": "export_import", "args": {"t": 3}},
+        {"ev": "redeem", "args": {"from": "a2", "to": "a2", "denom": "aLIQUID1", "amt": "1", "t": 4}},
+        {"ev": "export_import", "args": {"t": 5}},
+        {"ev": "redeem", "args": {"from": "a1", "to": "a3", "denom": "aLIQUID2", "amt": "4", "t": 5}},
+        {"ev": "redeem", "args": {"from": "a2", "to": "a1", "denom": "aLIQUID1", "amt": "2", "t": 9}},
+    ]}
+
+
+def _gap(state):
+    ex = [d["exists"] for d in state["denoms"]]
+    return any((not ex[i]) and any(ex[i + 1:]) for i in range(len(ex)))
+
+
 def _validate(wd):
     res, r = validate_trace(wd, TRACE_MOD, TRACE_CFG, timeout=3000)
     n = count_lines(os.path.join(wd, "trace.ndjson"))
@@ -79,6 +105,7 @@ def _redeem_kind(prev, args):
 
 def _coverage(path, c):
     cov = dict(liquidate_ok=0, liquidate_other_ok=0, transfer_ok=0, redeem_partial_ok=0, redeem_full_ok=0,
+               restarts=0, restarts_with_gap=0, redeem_after_restart_with_gap=0, redeem_into_shorter_lived=0,
                rejected=0, splits_ok=0, splits_rejected=0, splits_with_residue=0, helper_lines=0, redeem_into={})
     prev = None
     with open(path) as fh:
@@ -87,6 +114,7 @@ def _coverage(path, c):
             ev = o["ev"]
             if ev == "reset":
                 prev = o["post"]
+                gapped = False
                 continue
             if ev == "pure":
                 if o["fn"] == "subtract":
@@ -103,7 +131,12 @@ def _coverage(path, c):
                 else:
                     cov["helper_lines"] += 1
                 continue
-            if not o["ok"]:
+            if ev == "export_import":
+                cov["restarts"] += 1 if o["ok"] else 0
+                if o["ok"] and _gap(prev):
+                    cov["restarts_with_gap"] += 1
+                    gapped = True
+            elif not o["ok"]:
                 cov["rejected"] += 1
             elif ev == "liquidate":
                 cov["liquidate_ok"] += 1
@@ -114,6 +147,11 @@ def _coverage(path, c):
                 d = [d for d in o["post"]["denoms"] if d["id"] == o["args"]["denom"]]
                 full = bool(d) and not d[0]["exists"]
                 cov["redeem_full_ok" if full else "redeem_partial_ok"] += 1
+                cov["redeem_after_restart_with_gap"] += 1 if gapped else 0
+                ra = prev["acct"].get(o["args"]["to"])
+                pd = [x for x in prev["denoms"] if x["id"] == o["args"]["denom"]]
+                if ra and ra["kind"] == "vesting" and pd and ra["end"] < pd[0]["end"] and o["args"]["t"] < pd[0]["end"]:
+                    cov["redeem_into_shorter_lived"] += 1
                 k = _redeem_kind(prev, o["args"])
                 cov["redeem_into"][k] = cov["redeem_into"].get(k, 0) + 1
                 if len(c.samples) < 5 and k == "both-running":
@@ -164,12 +202,13 @@ def run(c):
     nscripts = 100 if quick else 1200
     scripts = []
     for cfg in ("LiquidVesting_sim.cfg", "LiquidVesting_sim2.cfg", "LiquidVesting_sim3.cfg"):
-        sc, _ = tlc_scripts(wd, "LiquidVesting.tla", cfg, nscripts, 7, c.seed)
+        sc, _ = tlc_scripts(wd, "LiquidVesting.tla", cfg, nscripts, 8, c.seed)
         if len(sc) < nscripts // 2:
             raise Infra("too few scripts generated from %s: %d" % (cfg, len(sc)))
         scripts += [{"cfg": s["cfg"], "steps": [{"ev": st["ev"], "args": st["args"]} for st in s["steps"]]} for s in sc]
     scripts.append(REPRO_F2)
     scripts.append(REPRO_F17)
+    scripts.append(REG_RESTART)
     with open(os.path.join(wd, "scripts.json"), "w") as fh:
         json.dump(scripts, fh)
     nrandom = 80 if quick else 1500
@@ -223,7 +262,8 @@ def run(c):
     # thin (a broken tree may make every later message fail); without one, a thin run is exit 2.
     floors = [("liquidate_ok", 100), ("liquidate_other_ok", 20), ("transfer_ok", 20), ("redeem_partial_ok", 50),
               ("redeem_full_ok", 30), ("splits_ok", 6000), ("splits_with_residue", 1000), ("splits_rejected", 500),
-              ("helper_lines", 500)]
+              ("helper_lines", 500), ("restarts_with_gap", 5), ("redeem_after_restart_with_gap", 5),
+              ("redeem_into_shorter_lived", 5)]
     thin = ["%s = %d < %d" % (k, cov[k], n) for k, n in floors if cov[k] < n]
     classes = {k: n for k, n in res["stats"]["redeems"].items() if k != "none"}
     classes["both-running"] = cov["redeem_into"].get("both-running", 0)
